@@ -240,13 +240,6 @@ theorem endsInName_decompose {p : Path} (h : endsInName p = true) : ∃ q a, p =
     exact ⟨t.reverse, a, by simpa using congrArg List.reverse heq⟩
   · simp at h
 
-theorem HA_decompose {p : Path} (h : HA p = true) : ∃ q b a, p = q ++ [.normal b, .normal a] := by
-  unfold HA at h
-  split at h
-  · rename_i a b t heq
-    exact ⟨t.reverse, b, a, by simpa using congrArg List.reverse heq⟩
-  · simp at h
-
 theorem hasRoot_of_relative {req : Path} (h : isRequireRelative req = true) : hasRoot req = false := by
   cases req with
   | nil => rfl
@@ -263,43 +256,57 @@ theorem luau_head_relative (m : LuauMode) (proj req source : Path) (cwd : List N
   simp only [push, hasRoot_of_relative hrel, Bool.false_eq_true, if_false, resolve_reparse,
     resolve_append, resolve_relParent_of_name]
 
-/-- Full statement (the property's luau clause): from a module-folder file, `./`/`../`
-requires start at the *parent* of the file's directory. -/
-def luau_head_module_full : Prop :=
-  ∀ (m : LuauMode) (proj req source : Path) (cwd : List Name),
-    isRequireRelative req = true → isModuleFolderName initName source = true →
-    endsInName source = true →
-    ∃ h, luauHead m proj req source = .ok h ∧
-      resolve cwd h = resolve (resolve cwd source).tail.tail req
+theorem resolve_parentDirectory (cwd : List Name) (d : Path) :
+    resolve cwd (parentDirectory d) = (resolve cwd d).tail := by
+  rcases List.eq_nil_or_concat d with rfl | ⟨q, c, rfl⟩
+  · simp [parentDirectory, push, hasRoot, reparse, resolve, resolveStep, dropCur]
+  · rw [List.concat_eq_append]
+    cases c with
+    | normal a =>
+      have : parentDirectory (q ++ [.normal a]) = relParent (q ++ [.normal a]) := by
+        simp [parentDirectory]
+      rw [this, resolve_relParent_of_name]
+    | root => simp [parentDirectory, resolve_snoc, resolveStep]
+    | cur =>
+      have : parentDirectory (q ++ [.cur]) = push (q ++ [.cur]) [.parent] := by simp [parentDirectory]
+      rw [this]
+      have hr : hasRoot [Comp.parent] = false := rfl
+      simp only [push, hr, Bool.false_eq_true, if_false]
+      rw [resolve_reparse]
+      simp [resolve, List.foldl_append, resolveStep]
+    | parent =>
+      have : parentDirectory (q ++ [.parent]) = push (q ++ [.parent]) [.parent] := by simp [parentDirectory]
+      rw [this]
+      have hr : hasRoot [Comp.parent] = false := rfl
+      simp only [push, hr, Bool.false_eq_true, if_false]
+      rw [resolve_reparse]
+      simp [resolve, List.foldl_append, resolveStep]
 
-/-- False (F25): from `init.luau` named without a directory, `./x` starts at the working
-directory itself (`get_relative_parent_path(".")` is `.`), not at its parent. -/
-theorem luau_head_module_full_false : ¬ luau_head_module_full := by
-  intro h
-  obtain ⟨h', h1, h2⟩ := h ⟨[], none⟩ [.cur] [.cur, .normal ['x']]
-    [.normal ['i', 'n', 'i', 't', '.', 'l', 'u', 'a', 'u']] [['w'], ['c']] (by decide) (by decide) (by decide)
-  have e : h' = [.cur, .normal ['x']] := by
-    have : luauHead ⟨[], none⟩ [.cur] [.cur, .normal ['x']]
-        [.normal ['i', 'n', 'i', 't', '.', 'l', 'u', 'a', 'u']] = .ok [.cur, .normal ['x']] := by rfl
-    rw [this] at h1
-    cases h1; rfl
-  subst e
-  revert h2; decide
+theorem endsInName_of_module {folder : Name} {p : Path} (h : isModuleFolderName folder p = true) :
+    endsInName p = true := by
+  unfold isModuleFolderName fileName at h
+  unfold endsInName
+  rw [List.getLast?_eq_head?_reverse] at h
+  cases hr : p.reverse with
+  | nil => simp [hr] at h
+  | cons c t => cases c <;> simp_all
 
-theorem luau_head_module_partial (m : LuauMode) (proj req source : Path) (cwd : List Name)
-    (hrel : isRequireRelative req = true) (hmod : isModuleFolderName initName source = true)
-    (hA : HA source = true) :
+/-- The property's luau clause in full: from a module-folder file, `./`/`../` requires are
+walked from the *parent* of the file's directory — wherever the file is (it was false before
+the fix of F25 for `init.luau`, `../init.luau`, `/init.luau`, whose directory has no name). -/
+theorem luau_head_module (m : LuauMode) (proj req source : Path) (cwd : List Name)
+    (hrel : isRequireRelative req = true) (hmod : isModuleFolderName initName source = true) :
     ∃ h, luauHead m proj req source = .ok h ∧
       resolve cwd h = resolve (resolve cwd source).tail.tail req := by
-  obtain ⟨q, b, a, rfl⟩ := HA_decompose hA
-  refine ⟨push (relParent (relParent (q ++ [.normal b, .normal a]))) req, by simp [luauHead, hrel, hmod], ?_⟩
-  have e1 : q ++ [.normal b, .normal a] = (q ++ [.normal b]) ++ [.normal a] := by simp
-  have hp : relParent ((q ++ [.normal b]) ++ [.normal a]) = q ++ [.normal b] := by
-    rw [relParent_snoc_name]; simp
+  obtain ⟨q, a, rfl⟩ := endsInName_decompose (endsInName_of_module hmod)
+  refine ⟨push (parentDirectory (relParent (q ++ [.normal a]))) req, by simp [luauHead, hrel, hmod], ?_⟩
   simp only [push, hasRoot_of_relative hrel, Bool.false_eq_true, if_false, resolve_reparse,
-    resolve_append]
-  rw [e1, hp, resolve_relParent_of_name]
-  simp [resolve, List.foldl_append, resolveStep]
+    resolve_append, resolve_parentDirectory, resolve_relParent_of_name]
+
+/-- regression (former F25 witness): from `init.luau`, `./x` is walked from `..` -/
+example : (luauHead ⟨[], none⟩ [.cur] [.cur, .normal ['x']]
+      [.normal ['i', 'n', 'i', 't', '.', 'l', 'u', 'a', 'u']]).toOption.map (normalize true) =
+    some [.parent, .normal ['x']] := by decide
 
 /-- `@self/…` starts at the requiring file's own directory -/
 theorem luau_head_self (m : LuauMode) (proj rest source : Path) (cwd : List Name)
@@ -313,7 +320,6 @@ theorem luau_head_self (m : LuauMode) (proj rest source : Path) (cwd : List Name
 
 example : isRequireRelative [.cur, .normal ['x']] = true ∧
     isModuleFolderName initName [.normal ['s'], .normal ['i', 'n', 'i', 't', '.', 'l', 'u', 'a']] = true ∧
-    HA [.normal ['s'], .normal ['i', 'n', 'i', 't', '.', 'l', 'u', 'a']] = true ∧
     isModuleFolderName initName [.normal ['m', '.', 'l', 'u', 'a']] = false ∧
     endsInName [.normal ['m', '.', 'l', 'u', 'a']] = true := by decide
 
